@@ -573,7 +573,7 @@ func (g *G) SendOp(label string) *Op {
 		rc = rc[:g.Int(label+"/rcl", 0, 31)]
 	}
 	body := g.Body(label + "/body")
-	if g.Pct(label+"/burnshaped", 12) {
+	if g.Pct(label+"/burnshaped", 20) {
 		b := &refcodec.Burn{Version: 0, BurnToken: attest.Keccak([]byte(strings.ToLower(g.W.Model.L.Denom))), MintRecip: g.NonZero32(label+"/bmr", by),
 			Amount: g.PosAmount(label + "/bamt"), MsgSender: Pad32(fromBytes(by))}
 		body, _ = refcodec.EncodeBurn(b)
@@ -755,6 +755,12 @@ func (g *G) AttesterString(label string) string {
 	m := g.W.Model
 	if len(m.Atts) > 0 && g.Pct(label+"/existing", 35) {
 		return Pick(g, label+"/ex", m.AttesterList())
+	}
+	if len(m.Atts) > 0 && g.Pct(label+"/respell", 12) {
+		// another spelling of a key that is enabled: an almost-equal registry entry
+		if k := KeyOfSpelling(Pick(g, label+"/rx", m.AttesterList())); k >= 0 {
+			return attest.K(k).Spelling(g.Int(label+"/rsp", 0, 5))
+		}
 	}
 	switch g.Int(label+"/k", 0, 11) {
 	case 0:
@@ -1196,7 +1202,21 @@ func (g *G) RepDepOp(label string, validPct int) *Op {
 	var orig []byte
 	var by string
 	cls := "own-deposit"
+	// a burn-shaped message that a user (not the module) really sent on this chain, replaced by that user
+	var userBurns []SentMsg
+	for _, s := range g.W.Sent {
+		if s.Burn != nil && !bytes.Equal(s.Msg.Sender, Pad32(ModuleAddrBytes())) {
+			userBurns = append(userBurns, s)
+		}
+	}
 	switch {
+	case len(userBurns) > 0 && g.Pct(label+"/userburn-first", 30):
+		s := Pick(g, label+"/ub", userBurns)
+		orig, by = s.Bytes, Acct(g.Acct(label+"/by"))
+		if a := s.Burn.MsgSender; IsZero(a[:12]) && AcctOfBytes(a[12:]) >= 0 {
+			by = sdk.AccAddress(a[12:]).String()
+		}
+		cls = "any-sent"
 	case valid:
 		s := Pick(g, label+"/orig", cands)
 		orig, by = s.Bytes, sdk.AccAddress(s.Burn.MsgSender[12:]).String()
